@@ -1446,6 +1446,12 @@ func (c *Conn) executeQuery(ctx context.Context, qry *Query) *Iter {
 			return &Iter{err: fmt.Errorf("gocql: too many query values: got %d, the protocol allows at most %d", len(values), maxQueryValues)}
 		}
 
+		if len(values) > len(info.request.columns) {
+			// the PREPARED response announced more bind markers than it described (or a tuple
+			// marker, which counts once per element): there is no type to marshal the value with
+			return &Iter{err: fmt.Errorf("gocql: cannot bind %d values, the prepared statement describes %d bind markers", len(values), len(info.request.columns))}
+		}
+
 		params.values = make([]queryValues, len(values))
 		for i := 0; i < len(values); i++ {
 			v := &params.values[i]
@@ -1664,6 +1670,10 @@ func (c *Conn) executeBatch(ctx context.Context, batch *Batch) *Iter {
 
 			if len(values) > maxQueryValues {
 				return &Iter{err: fmt.Errorf("gocql: batch statement %d: too many query values: got %d, the protocol allows at most %d", i, len(values), maxQueryValues)}
+			}
+
+			if len(values) > len(info.request.columns) {
+				return &Iter{err: fmt.Errorf("gocql: batch statement %d: cannot bind %d values, the prepared statement describes %d bind markers", i, len(values), len(info.request.columns))}
 			}
 
 			b.preparedID = info.id
